@@ -315,3 +315,9 @@ Example ex_ensure_tree_file :
   snd (ensure_tree fs_runtime (lit "a/x/y") default_mode ex_world) = OOk tt /\
   snd (ensure_tree fs_runtime (lit "a/f/y") default_mode ex_world) = OErr errno_ENOTDIR.
 Proof. repeat split; vm_compute; reflexivity. Qed.
+
+(* the default algorithm of the source is one hashlib.new accepts and whose hexdigest()
+   takes no argument (tables of the running interpreter) *)
+Theorem default_algorithm_usable :
+  str_mem default_algorithm hash_algorithms = true /\ str_mem default_algorithm hash_xof = false.
+Proof. split; vm_compute; reflexivity. Qed.
